@@ -20,7 +20,9 @@ impl Rng {
     }
 
     pub fn random(&mut self) -> f64 {
-        self.seed = (MULTIPLIER * self.seed + INCREMENT) % MODULUS;
+        // The modulus divides 2^64, so wrapping arithmetic yields the same residue
+        // for every 64-bit seed (the unchecked product overflowed for seeds >= ~2^43.4).
+        self.seed = MULTIPLIER.wrapping_mul(self.seed).wrapping_add(INCREMENT) % MODULUS;
         self.latest_random()
     }
 
